@@ -1,4 +1,5 @@
 import BtcwVerif.Lemmas.InvPres
+import BtcwVerif.Lemmas.Rollback
 import BtcwVerif.Model.Ledger
 /-!
 # C02 — reorgs converge; state depends on the surviving facts
@@ -138,6 +139,53 @@ theorem C02_seen_removes_nothing (s s' : Store) (rec : Tx) (h : insertMemPoolTx 
       by_cases hk : rec.hash = k
       · exact Or.inr ⟨hk.symm, by simp [hk]⟩
       · exact Or.inl (by simp [hk])
+
+private theorem takeWhile_all {α : Type} (q : α → Bool) : ∀ (l : List α), ∀ p ∈ l.takeWhile q, q p = true := by
+  intro l
+  induction l with
+  | nil => intro p hp; cases hp
+  | cons a t ih =>
+    intro p hp
+    by_cases ha : q a = true
+    · simp only [List.takeWhile_cons, ha, if_true] at hp
+      cases hp with
+      | head => exact ha
+      | tail _ h' => exact ih p h'
+    · simp [List.takeWhile_cons, ha] at hp
+
+/-- **blocks are disconnected**: after a successful `Rollback(height)` no block record at or above `height` is left
+and every block record below `height` is exactly as before (block records are in height order, as bbolt keeps them). -/
+theorem C02_rollback_blocks (s s' : Store) (height : Int) (h : rollback s height = .ok s')
+    (hs : (s.blocks.map (·.1)).Pairwise (· < ·)) :
+    (∀ k : Nat, (s'.blocks.find? k).isSome → (k : Int) < height) ∧
+    (∀ k : Nat, (k : Int) < height → s'.blocks.find? k = s.blocks.find? k) := by
+  have hb := rollback_blocks h
+  constructor
+  · intro k hk
+    rw [hb k] at hk
+    by_cases hm : k ∈ (s.blocks.reverse.takeWhile fun p => !decide ((p.1 : Int) < height)).map (·.1)
+    · simp [hm] at hk
+    · simp only [hm, if_false] at hk
+      cases hv : s.blocks.find? k with
+      | none => rw [hv] at hk; cases hk
+      | some v =>
+        have hmem : (k, v) ∈ s.blocks.reverse := by simpa using mem_of_find? _ hv
+        have hR : s.blocks.reverse.Pairwise (fun a b => b.1 < a.1) := by
+          rw [List.pairwise_reverse]; rw [List.pairwise_map] at hs; exact hs
+        rw [← @List.takeWhile_append_dropWhile _ (fun p : Nat × BlockRec => !decide ((p.1 : Int) < height)) s.blocks.reverse,
+          List.mem_append] at hmem
+        rcases hmem with h1 | h1
+        · exact absurd (List.mem_map.mpr ⟨(k, v), h1, rfl⟩) hm
+        · exact dropWhile_below height _ hR (k, v) h1
+  · intro k hk
+    rw [hb k]
+    have : k ∉ (s.blocks.reverse.takeWhile fun p => !decide ((p.1 : Int) < height)).map (·.1) := by
+      intro hm
+      obtain ⟨p, hp, rfl⟩ := List.mem_map.mp hm
+      have := takeWhile_all _ _ p hp
+      simp at this
+      omega
+    simp [this]
 
 /-! ### the specification says what C02 says -/
 open Ledger in
